@@ -59,7 +59,8 @@ class Lazy(Machine):
                        "read_after_fault_recovers", "slice_of_repeat_of_map_of_concat",
                        "fancy_with_duplicates", "empty_list_op", "landmark_attached_lazily",
                        "per_element_map", "negative_index", "index_out_of_range", "numpy_index",
-                       "depth_ge_4", "interleaved_videos", "truncated_read_raises", "mixed_video_instrumented")
+                       "depth_ge_4", "interleaved_videos", "truncated_read_raises", "mixed_video_instrumented",
+                       "read_folder_backed", "caller_list_mutated_after_use")
 
     @classmethod
     def swarm(cls, rng, tier):
@@ -69,7 +70,7 @@ class Lazy(Machine):
                 "w": [rng.choice([0, 1, 1, 2, 4]) for _ in range(12)]}
 
     KINDS = ["new_base", "map", "map_list", "index", "slice", "fancy", "repeat", "add",
-             "add_plain", "copy", "len", "iterate"]
+             "add_plain", "copy", "mutate_arg", "iterate"]
 
     @classmethod
     def draw(cls, rng, cfg):
@@ -79,7 +80,10 @@ class Lazy(Machine):
             return {"op": "new_video", "n": rng.randrange(0, 8), "fps": rng.randrange(6),
                     "lm": rng.getrandbits(8), "norm": rng.randrange(2), "exact": rng.randrange(4),
                     "via": rng.randrange(3), "trunc": rng.randrange(12), "dst": rng.randrange(64)}
-        if kind in ("video", "video_faulty") and r < 0.30:
+        if kind in ("video", "video_faulty") and r < 0.18:
+            return {"op": "new_folder", "n": rng.randrange(1, 7), "lm": rng.getrandbits(8), "how": rng.randrange(3),
+                    "dst": rng.randrange(64)}
+        if kind in ("video", "video_faulty") and r < 0.34:
             return {"op": "vread", "v": rng.randrange(8), "k": rng.randrange(-9, 9)}
         if kind in ("faulty", "video_faulty") and r < 0.50:
             fk = rng.choice(["arm", "arm_map", "faulted_read", "faulted_read", "faulted_read"] if kind == "faulty" else
@@ -110,6 +114,8 @@ class Lazy(Machine):
             op.update(n=rng.randrange(0, 4))
         elif k == "iterate":
             op.update(rev=rng.randrange(3))
+        elif k == "mutate_arg":
+            op.update(k=rng.randrange(16), how=rng.randrange(4))
         return op
 
     # ------------------------------------------------------------------ world
@@ -121,6 +127,8 @@ class Lazy(Machine):
         self.armed_map = {}   # fid -> True
         self.videos = []      # VideoSpec
         self.vlists = []      # pool-independent (LazyList, model) of each imported video
+        self.folders = []     # dict(n, lm set, how) of each image folder
+        self.caller_lists = []  # mutable lists the caller passed to an operation earlier (plain lists, callable lists)
         self.root = None
         self.fs = None
         self.ff = None
@@ -187,6 +195,13 @@ class Lazy(Machine):
 
     def _canon(self, x):
         """Canonical (hashable) form of an element value; decodes video frames."""
+        if isinstance(x, PointCloud) and not isinstance(x, Image):
+            p = np.asarray(x.points)
+            return ("lmfile", int(round(p[0, 0])), int(round(p[0, 1])))
+        if isinstance(x, Image) and x.pixels.shape == (1, 1, 2):
+            px = np.asarray(x.pixels).ravel()
+            lms = tuple(sorted((g, round(float(x.landmarks[g].points.sum()), 6)) for g in x.landmarks.group_labels))
+            return ("img", int(px[0]) - 100, int(px[1]), lms)
         if isinstance(x, Image):
             px = x.pixels
             if px.dtype != np.uint8:
@@ -230,6 +245,12 @@ class Lazy(Machine):
                 self._armed_map_view.discard(e[1])
                 raise InjectedIOError()
             return ("f", e[1], x)
+        if t == "file":
+            fo = self.folders[e[1]]
+            if fo["how"] == 2:
+                return ("lmfile", e[1], e[2])
+            lms = (("PTS", round(float(fo["pts"][e[2]].sum()), 6)),) if (e[2] in fo["lm"] and fo["how"] == 0) else ()
+            return ("img", e[1], e[2], lms)
         if t == "frame":
             spec = self.videos[e[1]]
             if e[2] >= spec.real_frames:
@@ -261,6 +282,16 @@ class Lazy(Machine):
         while e[0] == "map":
             e = e[2]
         return {(e[1], e[2])} if e[0] == "frame" else set()
+
+    @staticmethod
+    def _file_prefixes(e):
+        while e[0] == "map":
+            e = e[2]
+        if e[0] == "frame":
+            return {"v%d_%d." % (e[1], e[2])}
+        if e[0] == "file":
+            return {"f%d/im%02d." % (e[1], e[2])}
+        return set()
 
     # ------------------------------------------------------------------ step
     def _put(self, ll, model, dst, prov="base"):
@@ -301,10 +332,11 @@ class Lazy(Machine):
         self._armed_view = set(self.armed)
         self._armed_map_view = set(self.armed_map)
         exp_ev, exp_vals, exp_exc = [], [], None
-        vids, frames = set(), set()
+        vids, frames, prefixes = set(), set(), set()
         for e in exprs:
             vids |= self._videos_of(e)
             frames |= self._frames_of(e)
+            prefixes |= self._file_prefixes(e)
             try:
                 exp_vals.append(self._expect(e, exp_ev))
             except InjectedIOError:
@@ -315,7 +347,8 @@ class Lazy(Machine):
                 break
         vfaulty = any(self._video_fault_pending(v) or self.videos[v].truncated_at is not None for v in vids)
         lm_plan = None
-        if self.lm_fault and any(fr[1] in self.videos[fr[0]].lm_frames for fr in frames):
+        if self.lm_fault and (any(fr[1] in self.videos[fr[0]].lm_frames for fr in frames) or
+                              any(pf.startswith("f") for pf in prefixes)):
             lm_plan = self.fs.arm([{"kind": "read", "nth": 0, "errno": 5}])
         mark = self._seam_mark()
         got_exc = None
@@ -342,8 +375,10 @@ class Lazy(Machine):
                             lambda: "read of %s caused %r" % (name, f))
         for f in fs:
             if f[0] == "open":
-                ok = any(os.path.basename(f[1]).startswith("v%d_%d." % fr) for fr in frames)
+                ok = any(f[1].startswith(pf) or os.path.basename(f[1]).startswith(pf) for pf in prefixes)
                 ctx.require(ok, "lazy", "read_opened_unrelated_file", lambda: "read of %s opened %r" % (name, f))
+        if any(pf.startswith("f") for pf in prefixes) and got_exc is None:
+            ctx.probe("read_folder_backed")
         if vids:
             ctx.probe("read_video")
             if len(vids) > 1:
@@ -441,6 +476,8 @@ class Lazy(Machine):
                 self._put(ll, model, op["dst"])
         elif k == "new_video":
             self._new_video(op)
+        elif k == "new_folder":
+            self._new_folder(op)
         elif k == "vread":
             if not self.vlists:
                 return
@@ -487,7 +524,9 @@ class Lazy(Machine):
 
     def _op_map_list(self, op, ll, model):
         fids = [(op["f"] + j) % N_FUNCS for j in range(len(model))]
-        new = self._nonreading("map_list", lambda: ll.map([self.funcs[f] for f in fids]))
+        flist = [self.funcs[f] for f in fids]
+        self.caller_lists.append(flist)
+        new = self._nonreading("map_list", lambda: ll.map(flist))
         if new is not None:
             self.ctx.probe("per_element_map")
             m = [("map", f, e) for f, e in zip(fids, model)]
@@ -579,9 +618,10 @@ class Lazy(Machine):
         b = self.n_bases
         self.n_bases += 1
         plain = [("p", b, i) for i in range(op["n"])]
+        self.caller_lists.append(plain)
         new = self._nonreading("add_plain", lambda: ll + plain)
         if new is not None:
-            self._put(new, model + [("const", v) for v in plain], op["dst"], "add(%s)" % self._prov[:40])
+            self._put(new, model + [("const", v) for v in list(plain)], op["dst"], "add(%s)" % self._prov[:40])
 
     def _op_copy(self, op, ll, model):
         new = self._nonreading("copy", lambda: ll.copy())
@@ -590,6 +630,27 @@ class Lazy(Machine):
 
     def _op_len(self, op, ll, model):
         pass  # lengths are compared after every step
+
+    def _op_mutate_arg(self, op, ll, model):
+        """The caller edits, in place, a list it passed to an earlier operation (the plain list of
+        `lazy + plain`, the list of callables of a per-element map).  An ordinary list built by the
+        same operations would be unaffected, so the model does not change."""
+        if not self.caller_lists:
+            return
+        lst = self.caller_lists[op["k"] % len(self.caller_lists)]
+        how = op["how"] % 4
+        mark = self._seam_mark()
+        if how == 0 and lst:
+            lst[0] = self.funcs[0] if callable(lst[0]) else ("junk", 0, 0)
+        elif how == 1:
+            lst.append(self.funcs[1] if (lst and callable(lst[0])) else ("junk", 1, 1))
+        elif how == 2:
+            del lst[:]
+        elif lst:
+            lst.reverse()
+        self.ctx.probe("caller_list_mutated_after_use")
+        ev, fs, ff = self._seam_since(mark)
+        self.ctx.require(not ev and not fs and not ff, "lazy", "evaluation_during_caller_list_edit")
 
     def _op_iterate(self, op, ll, model):
         if op["rev"] % 3 == 0:
@@ -753,6 +814,54 @@ class Lazy(Machine):
             return
         self.vlists.append((ll, model))
         self._put(ll, model, op["dst"])
+
+    def _new_folder(self, op):
+        """Folder-backed lazy list through the real import_images / import_landmark_files glob importers:
+        nothing may be opened until an element is read, and then only that element's files."""
+        if len(self.folders) >= 3:
+            return
+        self._ensure_world()
+        ctx = self.ctx
+        fid = len(self.folders)
+        n, how = op["n"], op["how"] % 3
+        d = os.path.join(self.root, "f%d" % fid)
+        os.makedirs(d)
+        fo = {"n": n, "lm": {k for k in range(n) if (op["lm"] >> k) & 1}, "how": how, "pts": {}}
+        import PIL.Image as PILImage
+        self.fs.uninstall()
+        try:
+            for k in range(n):
+                PILImage.fromarray(np.array([[100 + fid, k]], dtype=np.uint8)).save(os.path.join(d, "im%02d.png" % k))
+                pts = np.array([[float(fid), float(k)], [1.0 + k, 2.0]])
+                fo["pts"][k] = pts
+                if k in fo["lm"] or how == 2:
+                    mio.export_landmark_file(PointCloud(pts), os.path.join(d, "im%02d.pts" % k))
+        finally:
+            self.fs.install()
+        self.folders.append(fo)
+        mark = self._seam_mark()
+        try:
+            if how == 0:
+                ll = mio.import_images(os.path.join(d, "*.png"), normalize=False, verbose=False)
+            elif how == 1:
+                ll = mio.import_images(os.path.join(d, "*.png"), normalize=False, landmark_resolver=None, verbose=False)
+            else:
+                ll = mio.import_landmark_files(os.path.join(d, "*.pts"), verbose=False).map(lambda dct: dct["PTS"])
+        except Exception as e:
+            ctx.fail("faithful", "glob_import_raised", repr(e))
+            return
+        ev, fs, ff = self._seam_since(mark)
+        opened = [f for f in fs if f[0] == "open"]
+        ctx.require(not opened and not ev and not ff, "lazy", "glob_import_opened_files", lambda: repr(opened[:3]))
+        model = [("file", fid, k, how) for k in range(n)]
+        try:
+            ln = len(ll)
+        except Exception as e:
+            ctx.fail("faithful", "len_raised", repr(e))
+            return
+        ctx.require(ln == n, "faithful", "folder_length", lambda: "len %d expected %d" % (ln, n))
+        if ln == n:
+            self._put(ll, model, op["dst"], "folder")
 
     def finish(self):
         # disarm all faults, then every list must still read back exactly (receivers unchanged)
